@@ -38,10 +38,11 @@ def derive_seed(*parts) -> int:
 class SimClock:
     """Integer microseconds.  Everything that reads time derives from `us`."""
 
-    def __init__(self, epoch_us: int) -> None:
+    def __init__(self, epoch_us: int, tz_offset_s: int = 0) -> None:
         self.us = 0
         self.epoch_us = epoch_us
-        self._epoch_dt = _real_datetime(1970, 1, 1) + timedelta(microseconds=epoch_us)
+        # naive datetimes are local time: the process time zone (TZ, pinned per run) is `tz_offset_s` east of UTC
+        self._epoch_dt = _real_datetime(1970, 1, 1) + timedelta(microseconds=epoch_us, seconds=tz_offset_s)
 
     # loop time (float seconds, small)
     def loop_time(self) -> float:
@@ -97,6 +98,111 @@ def _cb_name(handle) -> str:
     return n
 
 
+_CURRENT_JOB: list = [None]
+
+
+def thread_work(us: int) -> None:
+    """called by a function running in a simulated pool thread: it keeps its thread busy for `us` of virtual time"""
+    job = _CURRENT_JOB[0]
+    if job is not None:
+        job.work_us += int(us)
+
+
+def thread_at_end(cb) -> None:
+    """`cb()` runs when the simulated thread of the calling function is done (immediately outside of such a thread)"""
+    job = _CURRENT_JOB[0]
+    if job is None:
+        cb()
+    else:
+        job.at_end.append(cb)
+
+
+class _ThreadJob:
+    __slots__ = ("loop", "fut", "func", "args", "timer", "started", "completed", "work_us", "finish_us", "at_end", "outcome")
+
+    def __init__(self, loop, fut, func, args):
+        self.loop, self.fut, self.func, self.args = loop, fut, func, args
+        self.timer = None
+        self.started = self.completed = False
+        self.work_us = 0
+        self.finish_us = 0
+        self.at_end: list = []
+        self.outcome = None
+
+    def start(self):
+        if self.started:
+            return
+        self.started = True
+        if self.fut.cancelled():  # a work item whose future was cancelled before a thread picked it up is not run
+            self.completed = True
+            return
+        prev = _CURRENT_JOB[0]
+        _CURRENT_JOB[0] = self
+        try:
+            self.outcome = (True, self.func(*self.args))
+        except BaseException as exc:  # noqa: BLE001
+            if isinstance(exc, (SystemExit, KeyboardInterrupt, SimAbort)):
+                raise
+            self.outcome = (False, exc)
+        finally:
+            _CURRENT_JOB[0] = prev
+        self.finish_us = self.loop.clock.us + self.work_us
+        if self.work_us:
+            self.timer = self.loop.call_at_us(self.finish_us, self.complete)
+        else:
+            self.complete()
+
+    def complete(self):
+        if self.completed:
+            return
+        self.completed = True
+        for cb in self.at_end:
+            cb()
+        if not self.fut.done():
+            ok, val = self.outcome
+            if ok:
+                self.fut.set_result(val)
+            else:
+                self.fut.set_exception(val)
+
+    def join(self):
+        """the loop's thread waits for this pool thread (nothing else runs meanwhile): virtual time moves to its end"""
+        if self.completed:
+            return
+        if self.timer is not None:
+            self.timer.cancel()
+        if not self.started:
+            self.start()
+            if self.completed:
+                return
+            if self.timer is not None:
+                self.timer.cancel()
+        if self.finish_us > self.loop.clock.us:
+            self.loop.blocked.append((self.loop.clock.us, self.finish_us))
+            self.loop.clock.us = self.finish_us
+            self.loop.blocked_joins += 1
+        self.complete()
+
+
+class SimExecutor:
+    """stands in for ThreadPoolExecutor / ProcessPoolExecutor where repid creates one (repid/_asyncify.py)"""
+
+    def __init__(self, max_workers=None, *a, **kw):
+        self.jobs: list = []
+
+    def __enter__(self):
+        return self
+
+    def __exit__(self, *exc):
+        self.shutdown(wait=True)
+        return False
+
+    def shutdown(self, wait=True, *, cancel_futures=False):
+        if wait:
+            for job in list(self.jobs):
+                job.join()
+
+
 class SimLoop(base_events.BaseEventLoop):
     def __init__(self, clock: SimClock, seed: int) -> None:
         super().__init__()
@@ -116,6 +222,8 @@ class SimLoop(base_events.BaseEventLoop):
         self.digest = 0
         self.ilv_digest = 0  # interleaving: sequence of (node, callback) only
         self.trace: list | None = None  # optional full trace
+        self.blocked_joins = 0  # how often the loop's thread waited for a simulated pool thread
+        self.blocked: list = []  # (from_us, to_us) of those waits
         self.all_tasks: list[asyncio.Task] = []
         self.net = SimNet(self)
         self._exec_rng = random.Random(derive_seed(seed, "executor"))
@@ -286,23 +394,17 @@ class SimLoop(base_events.BaseEventLoop):
 
     # ------------------------------------------------------------ executors
     def run_in_executor(self, executor, func, *args):
+        """A simulated pool thread: after a seeded start delay the function body runs as one atomic step; the body may
+        declare how long it keeps its thread busy (`thread_work(us)`) - the result (or exception) is handed to the loop
+        at that later virtual time, `thread_at_end(cb)` callbacks run then. Joining a SimExecutor (`shutdown(wait=True)`,
+        leaving its `with` block) blocks the loop like the real thing: virtual time jumps to the end of its threads."""
         fut = self.create_future()
         lo, hi = self.executor_delay_us
         delay = self._exec_rng.randint(lo, hi)
-
-        def _run():
-            if fut.cancelled():
-                return
-            try:
-                res = func(*args)
-            except BaseException as exc:  # noqa: BLE001
-                if isinstance(exc, (SystemExit, KeyboardInterrupt, SimAbort)):
-                    raise
-                fut.set_exception(exc)
-            else:
-                fut.set_result(res)
-
-        self.call_at_us(self.clock.us + delay, _run)
+        job = _ThreadJob(self, fut, func, args)
+        if isinstance(executor, SimExecutor):
+            executor.jobs.append(job)
+        job.timer = self.call_at_us(self.clock.us + delay, job.start)
         return fut
 
     # ------------------------------------------------------------ network entry points
@@ -733,14 +835,14 @@ class SimTransport(asyncio.Transport):
 # Sim: one run
 # =============================================================================
 class Sim:
-    def __init__(self, seed: int, *, step_cost: str | int = 0, epoch_us: int | None = None) -> None:
+    def __init__(self, seed: int, *, step_cost: str | int = 0, epoch_us: int | None = None, tz_offset_s: int = 0) -> None:
         self.seed = seed
         krng = random.Random(derive_seed(seed, "clock"))
         if epoch_us is None:
             # random date in 2030, random sub-second phase
             base = 1893456000  # 2030-01-01T00:00:00Z
             epoch_us = (base + krng.randrange(0, 365 * 86400)) * 1_000_000 + krng.randrange(0, 1_000_000)
-        self.clock = SimClock(epoch_us)
+        self.clock = SimClock(epoch_us, tz_offset_s)
         self.loop = SimLoop(self.clock, seed)
         if step_cost == "rand":
             self.loop.step_cost_rng = random.Random(derive_seed(seed, "stepcost"))
